@@ -141,7 +141,10 @@ PROPS["C10"] = dict(
     trusted_base=_CTL_TB, assumptions=_CTL_ASSUME,
     level_text="Kernel-checked (Props/C10.lean): a usage batch for a live session is answered by exactly one Session Report Request to the owner with the peer's SEID; "
                "each IE carries URR id, trigger and measured values unchanged, measurement IEs selected by method/MNOP; unknown sessions/URRs dropped without touching "
-               "the rest. Tie: S-ctl 'urr' (handlers) + S-full 'krep' (kernel REPORT multicast decoded by the real buffnetlink listener, queued, served by the running loop, "
+               "the rest; groups_keys_nodup / mem_seids / groups_own / groupOf_other / groups_total — for every REPORT multicast (any number of reports, sessions interleaved in any way) "
+               "each session with a report gets exactly one notification carrying exactly its own reports in message order, independent of the other sessions' reports, nothing lost or doubled "
+               "(Model/Krep.lean, the function the krep driver runs). External predicate on the ctl stream: every usage report sent is one the data plane produced for that session in this event, "
+               "carried as measured (URR id, trigger, times, counters, duration; IEs by method/MNOP), none missing in a Session Report Request. Tie: S-ctl 'urr' (handlers) + S-full 'krep' (kernel REPORT multicast decoded by the real buffnetlink listener, queued, served by the running loop, "
                "Session Report Requests decoded at the SMF).",
     level_note="Trusted: as C01; go-pfcp's IE encoders (harness decodes what was sent). Known finding: reports for sessions whose node id is IPv6/FQDN are dropped.",
 )
